@@ -451,6 +451,16 @@ func c01concurrent(nat natSpec, nSenders, per, bound int, strict bool, queue int
 				})
 			}
 			zzvsched.WaitQuiet(time.Millisecond)
+			// everything written must have arrived by now: later traffic (the replies below) must not be
+			// what pushes a stranded datagram through
+			if done == nSenders && len(sink.got) != nSenders*per && (queue == 0 || nSenders*per < queue) && viol == nil {
+				var order []string
+				for _, it := range sink.got {
+					order = append(order, string(it.payload[:4]))
+				}
+				viol = &explore.Violation{Sig: "C01 lost", Msg: fmt.Sprintf("%s: %d datagrams were written and the network is quiescent, but only %d arrived (%v) although every queue on the path is below capacity", name, nSenders*per, len(sink.got), order)}
+				return
+			}
 			// phase 2: reply to every observed source; each reply must reach the original sender's socket
 			phase2 = true
 			for _, it := range append([]recvItem(nil), sink.got...) {
@@ -497,7 +507,7 @@ func c01concurrent(nat natSpec, nSenders, per, bound int, strict bool, queue int
 			if ex.HorizonHit {
 				return out + " HORIZON", nil
 			}
-			if done != nSenders || !phase2 {
+			if viol == nil && (done != nSenders || !phase2) {
 				return out, &explore.Violation{Sig: "C01 blocked", Msg: fmt.Sprintf("%s: a sender blocked: %v", name, ex.Parked)}
 			}
 			// per-flow order, nothing lost (unbounded queues) or only beyond the queue bound, nothing duplicated
